@@ -360,6 +360,10 @@ def run(ctx):
         raise AnalysisBroken("only %d (instruction type, operand shape) cases judged for the VEX form selection" % nv2)
     from x86enc import check_listing_bytes_paired
     check_listing_bytes_paired(db, rep, "D13-LISTING-BYTES-PAIRED")
+    from x86enc import check_bank_prefix
+    check_bank_prefix(db, rep, "D14-BANK-PREFIX")
+    from x86enc import check_names_stateless
+    check_names_stateless(db, rep, "D15-NAMES-STATELESS")
     from vexroles import check_vex_rxb_roles
     nvr = check_vex_rxb_roles(db, rep, "D12-VEX-RXB-ROLES")
     if nvr < 5:
